@@ -63,24 +63,35 @@ macro_rules! harness_panics {
     };
 }
 
-// ---------------------------------------------------------------- UBig + UBig
-harness!(vk_int_forms_ubig_add_1_1, 30, {
+// ---------------------------------------------------------------- probes
+fn ubig_w(c: usize, w: &[Word; 3]) -> UBig {
+    UBig::from_words(&w[..c])
+}
+harness!(vk_int_forms_probe_a, 30, {
     let (a, b) = (ubig(1), ubig(1));
-    let _ = forms_agree!(a, b, +, +=);
+    let r = &a + &b;
+    assert!(r.as_words().len() <= 2);
 });
-harness!(vk_int_forms_ubig_add_2_2, 30, {
-    let (a, b) = (ubig(2), ubig(2));
-    let _ = forms_agree!(a, b, +, +=);
+harness!(vk_int_forms_probe_b, 30, {
+    let wa: [Word; 3] = any();
+    let wb: [Word; 3] = any();
+    let r = &ubig_w(1, &wa) + &ubig_w(1, &wb);
+    let q = ubig_w(1, &wa) + ubig_w(1, &wb);
+    assert!(r == q);
 });
-harness!(vk_int_forms_ubig_add_3_2, 30, {
-    let (a, b) = (ubig(3), ubig(2));
-    let _ = forms_agree!(a, b, +, +=);
+harness!(vk_int_forms_probe_c, 30, {
+    let wa: [Word; 3] = any();
+    let wb: [Word; 3] = any();
+    assume(wa[1] != 0 && wb[1] != 0);
+    let r = &ubig_w(2, &wa) + &ubig_w(2, &wb);
+    let q = ubig_w(2, &wa) + ubig_w(2, &wb);
+    assert!(r == q);
 });
-harness!(vk_int_forms_ubig_add_1_3, 30, {
-    let (a, b) = (ubig(1), ubig(3));
-    let _ = forms_agree!(a, b, +, +=);
-});
-harness!(vk_int_forms_ubig_add_3_3, 30, {
-    let (a, b) = (ubig(3), ubig(3));
-    let _ = forms_agree!(a, b, +, +=);
+harness!(vk_int_forms_probe_d, 30, {
+    let wa: [Word; 3] = any();
+    let wb: [Word; 3] = any();
+    assume(wa[2] != 0 && wb[1] != 0);
+    let r = &ubig_w(3, &wa) + &ubig_w(2, &wb);
+    let q = ubig_w(3, &wa) + ubig_w(2, &wb);
+    assert!(r == q);
 });
